@@ -1022,6 +1022,9 @@ def tags(case, io):
 def shrink(case):
     if case['kind'] == 'history':
         ops = case['ops']
+        used = {op[1] for op in ops if op[0] == 'read'} | {t for op in ops if op[0] == 'main' for t in op[1]}
+        if any(name not in used for name, _ in case['files']):
+            yield dict(case, files=[[n, f] for n, f in case['files'] if n in used])
         for i in range(len(ops)):
             yield dict(case, ops=ops[:i] + ops[i + 1:])
         for i, (name, f) in enumerate(case['files']):
